@@ -243,6 +243,7 @@ func (r *Rig) NewHTTPClient(id string) (*RigClient, error) {
 }
 
 func (r *Rig) Close() {
+	r.W.Quit()
 	bounded(8*time.Second, func() {
 		for _, c := range r.Clients {
 			c.Close(2 * time.Second)
